@@ -654,27 +654,30 @@ impl ExecutableContent for SendParameters {
                 #[cfg(feature = "Debug")]
                 debug!("schedule '{}' for {}", event, delay_ms);
                 let global_clone = datamodel.global_s().clone();
-                let send_id_clone = send_id.clone();
+                // Sends without id are kept under a generated key, so that the session can discard
+                // all its undelivered events when it terminates.
+                let guard_key = match &send_id {
+                    Some(sid) => sid.clone(),
+                    None => format!(
+                        "\u{1}delayed.{}",
+                        PLATFORM_ID_COUNTER.fetch_add(1, Ordering::Relaxed)
+                    ),
+                };
+                let guard_key_clone = guard_key.clone();
                 let target_str = target_guard.to_string();
                 let tg = fsm.schedule(delay_ms, move || {
-                    if let Some(sid) = &send_id_clone {
-                        global_clone.lock().unwrap().delayed_send.remove(sid);
-                    }
+                    global_clone.lock().unwrap().delayed_send.remove(&guard_key_clone);
                     iopc.lock()
                         .unwrap()
                         .send(&global_clone, target_str.as_str(), event.clone());
                 });
                 if let Some(g) = tg {
-                    if let Some(sid) = &send_id {
-                        datamodel
-                            .global()
-                            .lock()
-                            .unwrap()
-                            .delayed_send
-                            .insert(sid.clone(), g);
-                    } else {
-                        g.ignore();
-                    }
+                    datamodel
+                        .global()
+                        .lock()
+                        .unwrap()
+                        .delayed_send
+                        .insert(guard_key, g);
                 };
                 true
             } else {
